@@ -48,7 +48,7 @@ Proof.
   unfold overflow_elem in H. destruct o.
   - destruct (elem_gt x (cmax f)) eqn:Eg; [injection H as <-; unfold in_range; lia|].
     destruct (elem_lt x (cmin f)) eqn:El; [injection H as <-; unfold in_range; lia|].
-    destruct x as [z|v].
+    destruct x as [z|v|q]; [| |destruct is_obj; discriminate].
     + assert (c = z) by (destruct is_obj; cbn in H; congruence). subst. unfold elem_gt, elem_lt in *. unfold in_range. lia.
     + apply (sat_float_in_range f v c Hw Eg El).
       destruct is_obj.
@@ -57,7 +57,7 @@ Proof.
         destruct ((- 2^63 <=? t) && (t <? 2^63)); cbn [of_option] in H; [congruence|discriminate].
   - destruct ((64 <=? nw f) || is_obj).
     + destruct (elem_to_int x) as [z| |]; cbn [bind] in H; try discriminate. injection H as <-. apply wrap_model_in_range. lia.
-    + destruct x as [z|v]; cbn [bind] in H.
+    + destruct x as [z|v|q]; cbn [elem_to_code bind] in H; [| |discriminate].
       * injection H as <-. apply wrap_model_in_range. lia.
       * destruct (astype_i64 v); cbn [of_option bind] in H; [injection H as <-; apply wrap_model_in_range; lia|discriminate].
 Qed.
@@ -79,13 +79,18 @@ Theorem set_val_codes_in_range f r o raw a vd w : 1 <= nw f <= 53 ->
   set_val_real f r o raw a vd = Ok w -> Forall (in_range f) (w_codes w).
 Proof.
   intros Hw H. unfold set_val_real in H.
-  destruct (if obj_path f raw a then Ok (arr_nums a) else astype_vd a vd) as [vals| |]; cbn [bind] in H; try discriminate.
-  destruct (mapM (elem_pipe f r o raw (obj_path f raw a)) vals) as [rs| |] eqn:Em; cbn [bind] in H; try discriminate.
+  set (io := obj_path f raw a vd) in *. set (xq := exact_factor f raw a) in *.
+  destruct (if io then Ok (arr_nums a) else astype_vd a vd) as [vals| |]; cbn [bind] in H; try discriminate.
+  destruct (mapM (fun x => if xq then elem_pipe_q f r o x else elem_pipe f r o raw io x) vals) as [rs| |] eqn:Em; cbn [bind] in H; try discriminate.
   injection H as <-. cbn [w_codes]. rewrite Forall_map.
-  apply (mapM_Forall_out (elem_pipe f r o raw (obj_path f raw a)) (fun e => in_range f (e_code e)) vals rs); [|exact Em].
-  intros x e He. unfold elem_pipe in He. destruct (scale_elem f raw (negb (obj_path f raw a)) x) as [s| |]; cbn [bind] in He; try discriminate.
-  destruct (overflow_elem f o (obj_path f raw a) (round_elem r (obj_path f raw a) s)) as [c| |] eqn:Eo; cbn [bind] in He; try discriminate.
-  injection He as <-. cbn [e_code]. exact (overflow_elem_in_range f o _ _ c Hw Eo).
+  apply (mapM_Forall_out (fun x => if xq then elem_pipe_q f r o x else elem_pipe f r o raw io x) (fun e => in_range f (e_code e)) vals rs); [|exact Em].
+  intros x e He. cbv beta in He. destruct xq.
+  - unfold elem_pipe_q in He. destruct x as [z|v|q]; try discriminate.
+    destruct (overflow_elem f o true (NI (round_dy r {| dm := z; de := nf f |}))) as [c| |] eqn:Eo; cbn [bind] in He; try discriminate.
+    injection He as <-. cbn [e_code]. exact (overflow_elem_in_range f o _ _ c Hw Eo).
+  - unfold elem_pipe in He. destruct (scale_elem f raw (negb io) x) as [s| |]; cbn [bind] in He; try discriminate.
+    destruct (overflow_elem f o io (round_elem r io s)) as [c| |] eqn:Eo; cbn [bind] in He; try discriminate.
+    injection He as <-. cbn [e_code]. exact (overflow_elem_in_range f o _ _ c Hw Eo).
 Qed.
 
 (* saturation side for Python integers of ANY size (n_frac >= 0): the bound on the input's side *)
